@@ -171,7 +171,7 @@ theorem text_step (w : Nat) (s : List Nat) (bs rest : Bytes) (f : List Nat → D
   have hlen : (e ++ 0 :: zeros (w - (e.length + 1))).length = w := by simp; omega
   have hnf := encStr_nulfree s e he hs
   rw [D.run_bind]
-  simp only [D.text, D.run]
+  simp only [D.text, D.run, D.short_eq, decide_eq_true_eq]
   rw [if_neg (by simp; omega)]
   rw [List.take_append_of_le_length (by omega), List.drop_append_of_le_length (by omega)]
   rw [List.take_of_length_le (by omega), List.drop_eq_nil_of_le (by omega)]
